@@ -21,6 +21,7 @@ import (
 	"fmt"
 	"math/rand"
 	"net"
+	"net/http"
 	"os"
 	"os/exec"
 	"path/filepath"
@@ -434,6 +435,13 @@ func (e *env) callAdd(g int, a addSpec) {
 
 func classify(err error) string {
 	s := err.Error()
+	if strings.Contains(s, "\"code\":-32603") && strings.Contains(s, "Post \\\"") {
+		// rainrpc wraps a failure of the HTTP round trip into a JSON-RPC internal error
+		if strings.Contains(s, "EOF") || strings.Contains(s, "connection reset") || strings.Contains(s, "broken pipe") {
+			return "panic" // the handler panicked: net/http recovered it and dropped the connection
+		}
+		return "env"
+	}
 	switch {
 	case strings.Contains(s, "duplicate torrent id"):
 		return "dup"
@@ -634,8 +642,16 @@ func (e *env) callReopen(g int, corrupt []string) {
 			}
 		}()
 		e.closed = true
+		if e.rpc != nil {
+			e.rpc.Close()
+		}
 		if err := e.s.Close(); err != nil {
 			res = classify(err)
+		}
+		// the RPC server comes back on the same port: a pooled keep-alive connection to the old server would fail the
+		// next call with EOF, which must stay the signature of a handler panic
+		if tr, ok := http.DefaultTransport.(*http.Transport); ok {
+			tr.CloseIdleConnections()
 		}
 	}()
 	if res == "ok" {
